@@ -480,9 +480,14 @@ class SymVC:
         """in-place writes whose target allocation came from the caller (frame clause)"""
         out = []
         for obj, what in self.c.writes:
-            o = getattr(obj, "origin", None)
-            if isinstance(o, str) and o.startswith("input"):
-                out.append((o, what))
+            # a write through a view (a row, a transpose, a slice ...) is a write to the array it views
+            t, hops = obj, 0
+            while t is not None and hops < 16:
+                o = getattr(t, "origin", None)
+                if isinstance(o, str) and o.startswith("input"):
+                    out.append((o, what))
+                    break
+                t, hops = getattr(t, "base", None), hops + 1
         return out
 
 
